@@ -166,6 +166,16 @@ def textsOfHex : List String → Option (List (List Char))
     | some t, some ts => some (t.toList :: ts)
     | _, _ => none
 
+/-- model of `compile_json` up to the file system: texts → `from_sources` → generated text -/
+def compileModel (hs : List String) : String :=
+  match textsOfHex hs with
+  | none => "bad-text"
+  | some ts =>
+    match fromSources ts with
+    | .ok s => if asciiKeys s then "ok " ++ hexOfString (generate s) ++ " " ++ sexp s else "unmodelled"
+    | .err _ => "err"
+    | .panic => "panic"
+
 def step (line : String) : String :=
   match line.splitOn "\t" with
   | ["subset", a, b] => withShape a fun a => withShape b fun b => showBool (isSubset a b)
@@ -278,14 +288,16 @@ def step (line : String) : String :=
         | .ok b => "ok " ++ showBool b
         | .err e => showPErr e
         | .panic => "panic"
+  | ["kfclass", "keysonly", a, b] => withShape a fun a => withShape b fun b => showBool (keysOnly a b)
   | ["kfclass", "gen", a] => withShape a fun a =>
       "classes " ++ genClasses a ++ (if noNullMembers a then "" else "d23 ")
   | ["derive_accepts", a, h] => withShape a fun a =>
       -- the derive model reads member names as field names: only for shapes whose names are legal fields
-      if badFields a then "unmodelled" else
+      -- and type references as the definition of the referenced sub-shape: only without name clashes
+      if badFields a || nameClash a then "unmodelled" else
       match docOfHex h with
       | none => "not-json"
-      | some d => if docNoDup d then toString (serdeAccepts a d) else "unmodelled"
+      | some d => if docNoDup d then toString (rootAccepts a d) else "unmodelled"
   | ["derive_rt", _, _] => "n/a"
   | "kfclass" :: "d3" :: hs =>
       match docsOfHex hs with
@@ -296,8 +308,9 @@ def step (line : String) : String :=
       | some d, some e => pC08 d e
       | _, _ => "not-json"
   | ["p_c17", _] => "n/a"
-  | "compile" :: _ => "n/a"
-  | "p_c16" :: _ => "n/a"
+  | "compile" :: _ :: hs => compileModel hs
+  | "p_c16" :: _ :: hs => compileModel hs
+  | "rustc" :: _ => "n/a"
   | ["allocs", _, _] => "n/a"
   | "p_c09" :: k :: hs =>
       match docsOfHex hs, k.toNat? with
